@@ -27,7 +27,8 @@ from . import grading_judge
 
 
 def consts(tier: str, part: str):
-    base = {"Variant": '"fixed"', "Rot1Choice": "{1}", "PassBound": "4"}
+    # cover and chain: the same assembled mesh is graded (written) a second time (Regrade)
+    base = {"Variant": '"fixed"', "Rot1Choice": "{1}", "PassBound": "4", "Rounds": "1" if part == "free" else "2"}
     if tier == "quick":
         if part == "free":
             base.update({"Topos": g.tla_set(["face2", "edge2", "hook3"]), "RotChoice": "{1, 30}",
@@ -59,7 +60,7 @@ INVS = ["TypeOK", "PassBoundOK", "OutcomeOK", "WrittenAgree", "Complete", "Share
 def shipped_counterexample(ctx: Ctx) -> None:
     """The model of the pinned commit's algorithm must reproduce the livelock (non-vacuity of PassBoundOK)."""
     c = {"Variant": '"shipped"', "Topos": g.tla_set(["tee4b"]), "Rot1Choice": "{1}", "RotChoice": "{1}",
-         "ChopOpts": g.tla_set(["A2"]), "MaxChopped": "6", "Cover": "FALSE", "AllOrders": "FALSE", "PassBound": "4"}
+         "ChopOpts": g.tla_set(["A2"]), "MaxChopped": "6", "Cover": "FALSE", "AllOrders": "FALSE", "PassBound": "4", "Rounds": "1"}
     res = run_tlc("Grading", "shipped.cfg", cfg_text=g.cfg_text("Spec", c, ["PassBoundOK"]), workers=16, timeout=900,
                   expect_ok=False)
     ctx.add_tlc(res)
